@@ -156,6 +156,9 @@ ObsBad(d, e, i) ==
     [] e.ep = "ser"   -> ~SerOK(d, e.ins[i].v[1], e.outs[i])
     [] e.ep = "sort"  -> ~SortOK(d, e.ins[i].v[1], e.outs[i])
     [] e.ep = "arb"   -> ~ArbOK(d, e.outs[i])
+    \* C14 on ranges too wide to enumerate: a byte string the harness computed by inverting int_in_range must produce the
+    \* targeted valid value (ins[i].v = <<bytes, target>>)
+    [] e.ep = "arb_hit" -> e.outs[i] # OkOut(e.ins[i].v[2])
     [] e.ep = "arb_cover" -> ~CoverOK(d, e.outs[i])
     [] OTHER          -> Assert(FALSE, <<"unknown event kind", e.ep>>)
 
